@@ -144,17 +144,44 @@ CONTRACTS = [
          raises='never'),
     dict(key='Dispatcher.unsubscribe', file='frappy/protocol/dispatcher.py', func='Dispatcher.unsubscribe', serves=['C08'],
          self_type='Dispatcher', params={'conn': 'Conn', 'eventname': 'str'}, requires=['inv(self)'], modifies=['_subscriptions'],
-         ensures={'removed': 'UnsubscribedFrom(self._subscriptions, old(self._subscriptions), eventname, conn)',
-                  'others': 'UnaffectedUntouched(self._subscriptions, old(self._subscriptions), eventname)',
-                  'inv': 'inv(self)'},
+         ensures={'inv': 'inv(self)',
+                  'removed': 'UnsubscribedFrom(self._subscriptions, old(self._subscriptions), eventname, conn)',
+                  'others': 'UnaffectedUntouched(self._subscriptions, old(self._subscriptions), eventname)'},
          raises='never'),
     dict(key='Dispatcher.reset_connection', file='frappy/protocol/dispatcher.py', func='Dispatcher.reset_connection', serves=['C08'],
          self_type='Dispatcher', params={'conn': 'Conn'}, requires=['inv(self)'], modifies=['_subscriptions', '_active_connections'],
-         ensures={'removed': 'RemovedEverywhere(self._subscriptions, old(self._subscriptions), conn)',
+         ensures={'inv': 'inv(self)',      # first: re-establishes the kinds of the havocked fields for the clauses below
+                  'removed': 'RemovedEverywhere(self._subscriptions, old(self._subscriptions), conn)',
                   'inactive': 'conn not in self._active_connections'
-                              ' and dict_same_except(self._active_connections, old(self._active_connections), conn)',
-                  'inv': 'inv(self)'},
+                              ' and dict_same_except(self._active_connections, old(self._active_connections), conn)'},
          raises='never'),
+    # ---- the three ways a scope ends: *IDN?, disconnect, deactivate (each must leave nothing of that scope for the connection)
+    dict(key='Dispatcher.handle__ident', file='frappy/protocol/dispatcher.py', func='Dispatcher.handle__ident', serves=['C08'],
+         self_type='Dispatcher', params={'conn': 'Conn'}, requires=['inv(self)'], modifies=['_subscriptions', '_active_connections'],
+         ensures={'inv': 'inv(self)',      # first: re-establishes the kinds of the havocked fields for the clauses below
+                  'removed': 'RemovedEverywhere(self._subscriptions, old(self._subscriptions), conn)',
+                  'inactive': 'conn not in self._active_connections'
+                              ' and dict_same_except(self._active_connections, old(self._active_connections), conn)'},
+         raises='never'),
+    dict(key='Dispatcher.remove_connection', file='frappy/protocol/dispatcher.py', func='Dispatcher.remove_connection', serves=['C08'],
+         self_type='Dispatcher', params={'conn': 'Conn'}, requires=['inv(self)'],
+         modifies=['_subscriptions', '_active_connections', '_connections'],
+         ensures={'inv': 'inv(self)',      # first: re-establishes the kinds of the havocked fields for the clauses below
+                  'removed': 'RemovedEverywhere(self._subscriptions, old(self._subscriptions), conn)',
+                  'inactive': 'conn not in self._active_connections'
+                              ' and dict_same_except(self._active_connections, old(self._active_connections), conn)'},
+         raises='never'),
+    dict(key='Dispatcher.handle_deactivate', file='frappy/protocol/dispatcher.py', func='Dispatcher.handle_deactivate', serves=['C08'],
+         self_type='Dispatcher', params={'conn': 'Conn'}, requires=['inv(self)', 'specifier is None or is_str(specifier)'],
+         modifies=['_subscriptions', '_active_connections'],
+         ensures={'inv': 'inv(self)',
+                  'scope_ended': 'implies(not specifier, conn not in self._active_connections'
+                                 ' and dict_same_except(self._active_connections, old(self._active_connections), conn))'
+                                 ' and implies(bool(specifier), UnsubscribedFrom(self._subscriptions, old(self._subscriptions), specifier, conn))',
+                  'others': "implies(bool(specifier), UnaffectedUntouched(self._subscriptions, old(self._subscriptions), specifier)"
+                            " and unchanged('_active_connections'))"},
+         raises={'cls': 'issubclass(exc, ProtocolError)', 'data': 'bool(data)',
+                 'untouched': "unchanged('_subscriptions') and unchanged('_active_connections')"}),
     # ---- activation of ONE item: only described modules / parameters can be subscribed; a refused request changes nothing
     dict(key='SecNode.get_module', file=None, func=None, signature='self, modulename', serves=[], trusted=True, requires=[],
          ensures={'known': 'same_object(result, module_of(self, modulename)) and result is not None and inv(result)'},
